@@ -203,6 +203,14 @@ def run(chk: Check):
         for _ in range(rng.randint(2, 5)):
             k = rng.choice(["C", "C", "K", "R", "R"])
             script.append(("C", rng.randint(0 if not script else 1, 3)) if k == "C" else (k,))
+        if i % 4 == 1:
+            # many parameters: column names of the results table with two digits (params_samp_10 sorts before params_samp_2 as a string)
+            cfg["dims"] = rng.choice([10, 11, 12, 13, 24])
+            cfg["lineup"] = [(nm, bs, cs) for nm, bs, cs in cfg["lineup"] if nm in ("HaltonSampler", "RandomUniformSampler", "RSequenceSampler", "BestBatchSampler")] \
+                or [("HaltonSampler", 3, None)]
+            if cfg["lineup"][0][0] == "BestBatchSampler":
+                cfg["lineup"].insert(0, ("HaltonSampler", 4, None))
+            chk.count("wide:dims>=10")
         if i % 5 == 0:
             script = [("K",), ("R",), ("C", 2), ("R",)]          # zero-batch checkpoint, then continue
         if i % 7 == 3:
